@@ -20,6 +20,10 @@ func init() {
 const tSnapElem = "leveldb.snapshotElement"
 
 func runC03(p *Prog, r *Report) {
+	if want("C03.15") {
+		// buffer lookups honour the view's sequence number (shared with C01)
+		ruleMemGet(p, r, "C03.15")
+	}
 	if want("C03.1") {
 		ruleReadsRegistered(p, r, "C03.1")
 	}
